@@ -160,7 +160,8 @@ class CobaRandom:
         else:
             tot = sum(weights)
             if tot == 0: raise ValueError("The sum of weights cannot be zero.")
-            return next(compress(seq, map((next(self._randu)*tot).__le__, accumulate(weights))))
+            #strictly less than so that an item with a weight of zero can never be chosen (not even when the uniform is 0)
+            return next(compress(seq, map((next(self._randu)*tot).__lt__, accumulate(weights))))
 
     def choicew(self, seq: Sequence[Any], weights:Sequence[float] = None) -> Tuple[Any,float]:
         """Choose a random item from the given sequence.
@@ -229,7 +230,8 @@ class CobaRandom:
         sin  = math.sin
 
         while True:
-            R = sqrt(-2*log(next(self._randu)))
+            #the uniform generator can return 0 which log can't handle (and which would end this generator)
+            R = sqrt(-2*log(next(self._randu) or 2**-31))
             S = 2*pi*next(self._randu)
             yield R*cos(S)
             yield R*sin(S)
